@@ -16,7 +16,7 @@ def run(prop, tier, seed, t0, H, second=None):
     same property (C06 / C08: the `wrap` engine), merged into the one verdict and the one evidence file"""
     module = MODULES[prop]
     ob, facts, axioms, built = H.prelude(prop, module, tier)
-    failures, coverage = [], {}
+    failures, coverage, assume = [], {}, ASSUME
     rule = ("seeded multi-client histories on real MDK instances (2..6 clients, memory and SQLite mixed, admin subsets, retention 1..5): rounds of 1..3 concurrent commits "
             "on one epoch with chosen wrapper timestamps (ties included), messages before and after, both ways of applying one's own commit, per-client shuffled delivery "
             "with duplication and held-back events, restarts, then re-offering everything until nothing changes; non-trivial = contains a competing commit, a rollback, "
@@ -78,11 +78,16 @@ def run(prop, tier, seed, t0, H, second=None):
                     "correspondence_disagreements": len(corr), "oracle_failures": len(mine),
                     "samples": [{"world": worlds[0].id, "meta": getattr(worlds[0], "meta", {}), "commands": [c for c, _, _ in worlds[0].trace][:40]}],
                     "generated_facts": facts, **extra}
+        if prop == "C02":
+            # reordering inside / outside the configured windows (Props/C02Win.lean, msgwin engine)
+            from . import c02win
+            c02win.extend(tier, seed, ob, failures, coverage, facts, H)
+            assume = ASSUME + c02win.ASSUMPTIONS
     else:
         coverage = {"evaluations": 1, "distinct_nontrivial": 0, "rule": rule, "samples": ["build failed"]}
     coverage["axioms_used"] = H.axiom_summary(axioms)
     checker = f"cd lean && lake build {module} mdkdrv && lake env lean .lake/audit/{prop}_axioms.lean; ./check {prop} --tier {tier}"
-    assume, trusted = list(ASSUME), H.TRUSTED + [f"axioms actually used: {H.axiom_summary(axioms)}"]
+    assume, trusted = list(assume), H.TRUSTED + [f"axioms actually used: {H.axiom_summary(axioms)}"]
     if second is not None:
         x = second(prop, tier, seed, H, ob, facts, built)
         failures += x["failures"]
